@@ -11,11 +11,23 @@ package closest
 //@     invariant implies(measure == "raw" || measure == "snp" || measure == "tn93", len(written(w)) == 1 + range_i && written(w)[0] == "query,closest,distance,SNPs\n")
 //@   ensures [c19] implies(result == nil, !failed(w))
 //@   ensures [rows] implies(result == nil && (measure == "raw" || measure == "snp" || measure == "tn93"), len(written(w)) == 1 + len(results) && written(w)[0] == "query,closest,distance,SNPs\n")
+//@   # C06: what a row says - query, its closest target, the distance (integer for snp, 9 decimals otherwise), the SNPs joined by ';'
+//@   after call:Write#2: assert [row.raw] written(w)[len(written(w))-1] == result.qname + "," + result.tname + "," + fmtfloat(result.distance) + "," + join(result.snps, ";") + "\n"
+//@   after call:Write#3: assert [row.snp] written(w)[len(written(w))-1] == result.qname + "," + result.tname + "," + itoa(int(result.distance)) + "," + join(result.snps, ";") + "\n"
+//@   after call:Write#4: assert [row.tn93] written(w)[len(written(w))-1] == result.qname + "," + result.tname + "," + fmtfloat(result.distance) + "," + join(result.snps, ";") + "\n"
+//@   before call:Write#2: assert [row.of] result == results[range_i]
+//@   before call:Write#3: assert [row.of] result == results[range_i]
+//@   before call:Write#4: assert [row.of] result == results[range_i]
 
 //@ func writeClosestN
 //@   modifies w
 //@   loop 1:
 //@     invariant !failed(w) && len(written(w)) == 1 + range_i && written(w)[0] == "query,closest\n"
+//@   loop 2:
+//@     invariant !failed(w) && len(written(w)) == 1 + range_i1 && freshslice(temp) && len(temp) == range_i && forall(j, 0, range_i, temp[j] == result.catchment[j].tname)
+//@   # C06: a row is the query and the names of its neighbours, in catchment order, joined by ';'
+//@   before call:Write#2: assert [row.names] result == results[range_i] && len(temp) == len(result.catchment) && forall(j, 0, len(temp), temp[j] == result.catchment[j].tname)
+//@   after call:Write#2: assert [row] written(w)[len(written(w))-1] == result.qname + "," + join(temp, ";") + "\n"
 //@   ensures [c19] implies(result == nil, !failed(w))
 //@   ensures [rows] implies(result == nil, len(written(w)) == 1 + len(results) && written(w)[0] == "query,closest\n")
 
@@ -29,6 +41,9 @@ package closest
 //@     invariant !failed(w)
 //@   loop 4:
 //@     invariant !failed(w)
+//@   # C06 (--table): one row per (query, neighbour) in catchment order: query, target, distance (integer for snp, 9 decimals otherwise)
+//@   after call:Write#2: assert [row.snp] result == results[range_i1] && hit == result.catchment[range_i] && written(w)[len(written(w))-1] == result.qname + "," + hit.tname + "," + itoa(int(hit.distance)) + "\n"
+//@   after call:Write#3: assert [row.float] result == results[range_i3] && hit == result.catchment[range_i] && written(w)[len(written(w))-1] == result.qname + "," + hit.tname + "," + fmtfloat(hit.distance) + "\n"
 //@   ensures [c19] implies(result == nil, !failed(w))
 
 //@ # C07: the per-column classification on encoded symbols. disjoint(a,b) = (a&b) < 16; same resolved base = a&8==8 && a==b.
